@@ -24,6 +24,12 @@ def main() -> int:
     out = {"fn": fn_name, "state": "WORKER_ERROR", "message": "", "num_paths": 0}
     t0 = time.process_time()
     try:
+        import resource
+        soft, hard = resource.getrlimit(resource.RLIMIT_NOFILE)
+        resource.setrlimit(resource.RLIMIT_NOFILE, (hard, hard))   # every explored path opens fresh SQLite connections
+    except Exception:
+        pass
+    try:
         from crosshair.core_and_libs import (  # noqa: F401  (registers the std-lib plugins)
             analyze_function,
             run_checkables,
